@@ -118,3 +118,8 @@ Definition set_entry (a : account) (i : nat) (p : pos) (dcash : Q) : account :=
   | Some (c, _) => {| a_total_cash := qadd (a_total_cash a) dcash; a_frozen := a_frozen a; a_liab := a_liab a; a_pending := a_pending a;
                       a_mgmt_fees := a_mgmt_fees a; a_pos := upd i (c, p) (a_pos a) |}
   end.
+
+(* Account._on_before_trading, first step: an instrument's entries (long and short) are dropped when every one of them has quantity 0 AND
+   equity 0 - an emptied holding whose dividend is still receivable has equity and must stay until the payable date *)
+Definition purgeable (entries : list (pcfg * pos)) : bool :=
+  forallb (fun e => qeq_b (p_qty (snd e)) 0 && qeq_b (equity (fst e) (snd e)) 0) entries.
